@@ -100,6 +100,9 @@ static void verif_fail(const char* msg) { fprintf(stderr, "VERIF_ASSERT failed: 
   static vec_##TAG vec_##TAG##_ctor_n(size_t n) { vec_##TAG v = vec_##TAG##_default(); \
     if (n > VERIF_VEC_MAXN(T)) { verif_exc = EXC_std_length_error; return v; } \
     VERIF_ASSUME(n <= v.cap); v.size = n; return v; } \
+  static vec_##TAG vec_##TAG##_ctor_n_val(size_t n, T x) { vec_##TAG v = vec_##TAG##_ctor_n(n); \
+    /* every element is a copy of x: stated for the arbitrary ghost position verif_g */ \
+    if (verif_exc == 0 && verif_g < n) v.data[verif_g] = x; return v; } \
   static void vec_##TAG##_reserve(vec_##TAG* v, size_t n) { if (n > VERIF_VEC_MAXN(T)) { verif_exc = EXC_std_length_error; } } \
   static void vec_##TAG##_resize(vec_##TAG* v, size_t n) { if (n > VERIF_VEC_MAXN(T)) { verif_exc = EXC_std_length_error; return; } \
     VERIF_ASSUME(n <= v->cap); v->size = n; } \
@@ -136,6 +139,8 @@ static void* verif_alloc(size_t n, size_t sz)
   static vec_##TAG vec_##TAG##_ctor_n(size_t n) { vec_##TAG v = {0, 0, 0}; \
     if (n > VERIF_VEC_MAXN(T)) { verif_exc = EXC_std_length_error; return v; } \
     VERIF_ASSUME(n <= VERIF_CAP_BYTES / sizeof(T)); v.data = (T*)verif_alloc(n, sizeof(T)); v.size = n; v.cap = n; return v; } \
+  static vec_##TAG vec_##TAG##_ctor_n_val(size_t n, T x) { vec_##TAG v = vec_##TAG##_ctor_n(n); \
+    if (verif_exc == 0) for (size_t i = 0; i < n; ++i) VERIF_MODEL_LOOP { v.data[i] = x; } return v; } \
   static void vec_##TAG##_reserve(vec_##TAG* v, size_t n) { if (n > VERIF_VEC_MAXN(T)) { verif_exc = EXC_std_length_error; return; } \
     VERIF_ASSUME(n <= VERIF_CAP_BYTES / sizeof(T)); VERIF_NATIVE_RESERVE_GUARD(n, T) vec_##TAG##_grow(v, n); } \
   static void vec_##TAG##_resize(vec_##TAG* v, size_t n) { if (n > VERIF_VEC_MAXN(T)) { verif_exc = EXC_std_length_error; return; } \
